@@ -163,7 +163,13 @@ def oracle(case):
         newv = keys[edit[2] % len(keys)]
         if newv != rows[r][t["header"].index(h)]:
             why0 = same_frame(snap, tab.dataframe)
-            tab.dataframe.iloc[r, list(tab.dataframe.columns).index(h)] = newv
+            if why0:
+                return out.bad(f"table-changed-by-assembly:{why0}", f"dtypes before {snap[1]} after "
+                                                                    f"{[str(x) for x in tab.dataframe.dtypes]}")
+            try:
+                tab.dataframe.iloc[r, list(tab.dataframe.columns).index(h)] = newv
+            except Exception as exc:  # noqa  -- the caller's table could be edited before it was assembled
+                return out.bad("table-not-editable-after-assembly", repr(exc)[:200])
             rows2 = [list(x) for x in rows]
             rows2[r][t["header"].index(h)] = newv
             exp2 = gen_tab.reference_assemble(spec, t["header"], rows2)
